@@ -1340,6 +1340,29 @@ def ir_floor_div_shape(prog: Program) -> bool:
                 return _arith(e.op, l[0], r[0]), l[1] and r[1]
             except Exception:  # noqa: BLE001
                 return None
+        if isinstance(e, Bin) and (e.op in CMP_OPS or e.op in LOGIC_OPS):
+            # comparisons and && / || of constants are decided at compile time; the result is a signal-typed 0/1
+            l, r = const(e.l, depth + 1), const(e.r, depth + 1)
+            if e.op == "||" and ((l is not None and l[0] != 0) or (r is not None and r[0] != 0)):
+                return 1, False
+            if e.op == "&&" and ((l is not None and l[0] == 0) or (r is not None and r[0] == 0)):
+                return 0, False
+            if l is None or r is None:
+                return None
+            if e.op in CMP_OPS:
+                return (1 if compare(_CMP[e.op], l[0], r[0]) else 0), False
+            return (1 if ((l[0] != 0 and r[0] != 0) if e.op == "&&" else (l[0] != 0 or r[0] != 0)) else 0), False
+        if isinstance(e, Un) and e.op == "!":
+            c = const(e.e, depth + 1)
+            return None if c is None else ((1 if c[0] == 0 else 0), False)
+        if isinstance(e, Cond):
+            c = const(e.c, depth + 1)
+            if c is None:
+                return None
+            if c[0] == 0:
+                return 0, False
+            v = const(e.v, depth + 1)
+            return None if v is None else (v[0], False)
         return None
 
     def visit(e):
